@@ -5,7 +5,7 @@ AddCategory with every argument, the getters): the registry invariant is preserv
 every history (`run_inv_partial`; the identity-base clause in the weakened form forced by the known
 finding "AddUnit into a quantity type without base unit", with `run_inv_counterexample`), a rejected
 step is the identity, every category/unit of a well-formed registry builds a Scalar, and the shipped
-POSC table satisfies the invariant (`posc_RegInv`, from generated `decide +kernel` table theorems).
+POSC table satisfies the invariant (`posc_RegInv`, `posc_units_default_category_of_own_type`, from generated `decide +kernel` table theorems).
 Tie: bounded-exhaustive and random registration histories on private `UnitDatabase()` objects; the
 outcome of every step, the complete registry afterwards (three dictionaries, conversion functions
 evaluated at three points) and a pool of getter / construction queries are compared with the model."""
@@ -304,9 +304,11 @@ def impl(c, ctx):
     if c["op"] == "shipped":
         res = {}
         for kind, db in _shipped_dbs():
-            fails = rc.registry_invariant(db, None, scalars=(kind != "posc" or ctx.tier != "quick"))
+            fails = rc.registry_invariant(db, None)
+            dfails, nodef = rc.default_scalars(db)
             res[kind] = dict(ok=not fails, units=sum(len(v) for v in db.quantity_types.values()),
-                             cats=len(db.categories_to_quantity_types), first=fails[:1])
+                             cats=len(db.categories_to_quantity_types), first=(fails + dfails)[:1],
+                             defcat=not dfails, nodefcat=nodef)
         return res
     if c["op"] == "chist":
         import C15
@@ -347,6 +349,11 @@ def agree(c, io, mo, ctx):
                 return "%s: table sizes differ impl=%s model=%s (translated tables are stale?)" % (kind, a, b)
             if a["ok"] != b["ok"]:
                 return "%s: registry invariant impl=%s model=%s" % (kind, a, b)
+            if a["nodefcat"] != b.get("nodefcat"):
+                return "%s: units without default category impl=%s model=%s" % (kind, a["nodefcat"], b.get("nodefcat"))
+            if kind != "nocat" and a["defcat"] != b.get("defcat"):
+                # (without categories the own default_category entries name nothing: by design no Scalar is built)
+                return "%s: Scalar(value, unit) builds for every unit: impl=%s model=%s" % (kind, a, b)
         return None
     if c["op"] == "chist":
         import C15
@@ -422,12 +429,30 @@ def oracle(c, ctx):
     if c["op"] == "shipped":
         for kind, db in _shipped_dbs():
             fails = rc.registry_invariant(db, None)
+            if kind != "nocat":
+                # the databases filled with categories: every unit builds a Scalar without naming a category
+                fails += rc.default_scalars(db, require_default=True)[0]
             if fails:
-                f = dict(fails[0])
+                focus = set(c["_t"].get("focus") or [])
+                f = dict(next((g for g in fails if g.get("unit") in focus), fails[0]))
                 f["database"] = kind
                 return f
         return None
     return _check_history(c["_t"]["ops"])
+
+
+def table_candidates(ctx):
+    """rows of the translated POSC table on which a table predicate of C14 is false (tried first when a table
+    theorem no longer checks)"""
+    d = ctx.data["posc"]
+    cats = {c["name"]: c["qtype"] for c in d["cats"]}
+    seen, bad = {}, []
+    for r in d["units"]:
+        dc = r["default_category"] or r["qtype"]
+        if cats.get(dc) != r["qtype"] or r["sym"] in seen:
+            bad.append(r["sym"])
+        seen[r["sym"]] = r["qtype"]
+    yield dict(op="shipped", _t=dict(tag="shipped", focus=bad[:50]))
 
 
 def search(ctx):
